@@ -325,13 +325,23 @@ def build_in_bare_thread(world):
     import _thread
     import time as _t
 
+    import sys as _sys
+
     holder = []
-    _thread.start_new_thread(build, (world, True, holder))
-    t0 = _t.time()
-    while not (holder and getattr(holder[0], "complete", False)):
-        if _t.time() - t0 > 20:
-            raise RuntimeError("bare-thread build failed")
-        _t.sleep(0.0002)
+    died = []
+    old_hook = _sys.unraisablehook
+    # (build has to be the bottom frame of that thread, so nothing can catch its exceptions for us: the interpreter
+    #  reports an exception that ends a _thread thread through sys.unraisablehook)
+    _sys.unraisablehook = lambda u: died.append(u.exc_value)
+    try:
+        _thread.start_new_thread(build, (world, True, holder))
+        t0 = _t.time()
+        while not (holder and getattr(holder[0], "complete", False)):
+            if died or _t.time() - t0 > 20:
+                raise RuntimeError(f"bare-thread build failed: {died[0]!r}" if died else "bare-thread build failed")
+            _t.sleep(0.0002)
+    finally:
+        _sys.unraisablehook = old_hook
     return holder[0]
 
 
